@@ -165,11 +165,15 @@ func (m *UnboundedFairMailbox) Enqueue(msg *ReceiveContext) error {
 	_ = sq.mailbox.Enqueue(msg)
 	atomic.AddInt64(&m.length, 1)
 
-	if pending := atomic.AddInt64(&sq.pending, 1); pending == 1 {
-		// transition from empty -> non-empty, try to activate sender
-		if sq.active.CompareAndSwap(false, true) {
-			m.active.enqueue(sq)
-		}
+	atomic.AddInt64(&sq.pending, 1)
+	// Activate the sender whenever it is found inactive, not only on the
+	// empty -> non-empty transition of pending: producers sharing a sender
+	// key can complete out of order, so the producer that observes
+	// pending == 1 may activate the sender before an earlier producer has
+	// linked its message, and the consumer may deactivate it again before
+	// that message becomes visible.
+	if !sq.active.Load() && sq.active.CompareAndSwap(false, true) {
+		m.active.enqueue(sq)
 	}
 	return nil
 }
@@ -191,8 +195,14 @@ func (m *UnboundedFairMailbox) Dequeue() (msg *ReceiveContext) {
 
 	msg = sq.mailbox.Dequeue()
 	if msg == nil {
-		// per‑sender queue was drained concurrently; mark inactive
+		// per‑sender queue was drained concurrently (or a producer has not
+		// linked its message yet); mark inactive, then re-check so a message
+		// linked before the flag was released is not left without an
+		// activation (a producer finishing later re-activates on its own).
 		sq.active.Store(false)
+		if !sq.mailbox.IsEmpty() && sq.active.CompareAndSwap(false, true) {
+			m.active.enqueue(sq)
+		}
 		return
 	}
 
